@@ -2,6 +2,7 @@ package main
 
 import (
 	"encoding/json"
+	"os/exec"
 	"flag"
 	"fmt"
 	"os"
@@ -237,7 +238,13 @@ func runCheck(prop, tier string, seed int) int {
 					n++
 				}
 			}
-			if n == 0 && contractTags(fr.fu.fc)[prop] {
+			restricted := false
+			for _, m := range fr.fu.fc.Modes {
+				if m.Name == r.Mode && m.Assume != nil && len(m.Assume.Tags) > 0 && !hasTag(m.Assume.Tags, prop) {
+					restricted = true
+				}
+			}
+			if n == 0 && contractTags(fr.fu.fc)[prop] && !restricted {
 				rep.undecided = append(rep.undecided, fmt.Sprintf("%s%s generated no obligation for %s", r.Func, modeSuffix(r.Mode), prop))
 			}
 			if n > 0 {
@@ -270,6 +277,15 @@ func runCheck(prop, tier string, seed int) int {
 			oblGOOS[o] = g
 		}
 		funcNames = append(funcNames, fmt.Sprintf("%d lemma(s) over the specification functions (%s)", n, g))
+	}
+	for i, g := range gooses {
+		if progs[i] == nil {
+			continue
+		}
+		for _, o := range structureObligations(progs[i], prop) {
+			all = append(all, o)
+			oblGOOS[o] = g
+		}
 	}
 	for _, n := range sortedKeys(serving) {
 		funcNames = append(funcNames, n)
@@ -306,10 +322,21 @@ func runCheck(prop, tier string, seed int) int {
 	for a := range abstractions {
 		assumptions = append(assumptions, "abstraction: "+a)
 	}
+	for _, p := range progs {
+		if p == nil {
+			continue
+		}
+		for k, fc := range p.Contracts.Funcs {
+			if fc.Opts["assumed"] != "" && contractTags(fc)[prop] || (fc.Opts["assumed"] != "" && prop == "C20") {
+				assumptions = append(assumptions, "contract of "+k+" is ASSUMED in the proofs (function outside the verified subset) and checked by the "+fc.Opts["assumed"]+" companion")
+			}
+		}
+	}
 	sort.Strings(assumptions)
 	assumptions = append(assumptions, metaAssumptions(prop)...)
 
 	known := loadKnown()
+	knownSeen := map[string]bool{}
 	discharged := 0
 	var evs []oblEvidence
 	solverMs := int64(0)
@@ -326,13 +353,22 @@ func runCheck(prop, tier string, seed int) int {
 		// undischarged
 		var kf *KnownFinding
 		for i := range known {
-			if known[i].State == "known" && known[i].Property == prop && strings.Contains(o.Name, known[i].Obligation) {
+			if known[i].State == "known" && known[i].Property == prop && known[i].Obligation != "" && strings.Contains(o.Name, known[i].Obligation) {
 				kf = &known[i]
 				break
 			}
 		}
 		if kf != nil {
-			rep.known = append(rep.known, fmt.Sprintf("KNOWN-FINDING: property=%s %s [obligation %s: %s]", prop, kf.What, o.Name, o.Result))
+			line := fmt.Sprintf("KNOWN-FINDING: property=%s %s [obligation %s: %s]", prop, kf.What, o.Name, o.Result)
+			if kf.Scenario != "" {
+				if pass, out := runScenario(kf.Scenario); !pass {
+					line += fmt.Sprintf(" [reproduced on the real code by scenario %s: %s]", kf.Scenario, scenarioWhy(out))
+				} else {
+					line += " [scenario " + kf.Scenario + " does not reproduce it on this tree]"
+				}
+			}
+			rep.known = append(rep.known, line)
+			knownSeen[kf.ID] = true
 			continue
 		}
 		path, reproduced := writeReplay(replayDir, prop, o, oblGOOS[o], timeout)
@@ -344,11 +380,38 @@ func runCheck(prop, tier string, seed int) int {
 		fmt.Printf("failed obligation: %s  (%s by %s) at %s:%d\n", o.Name, o.Result, o.Solver, filepath.Base(o.Pos.Filename), o.Pos.Line)
 	}
 	sort.Slice(evs, func(i, j int) bool { return evs[i].Name < evs[j].Name })
+	// scenario replays on the real code (real kernel): recorded findings must still be the recorded ones,
+	// repaired defects must stay repaired
+	scenarioRuns := []map[string]interface{}{}
+	for i := range known {
+		kf := &known[i]
+		if kf.Property != prop || kf.Scenario == "" {
+			continue
+		}
+		if kf.State == "known" && knownSeen[kf.ID] {
+			continue
+		}
+		pass, out := runScenario(kf.Scenario)
+		scenarioRuns = append(scenarioRuns, map[string]interface{}{"scenario": kf.Scenario, "finding": kf.ID, "state": kf.State, "passes": pass})
+		switch {
+		case kf.State == "known" && !pass:
+			rep.known = append(rep.known, fmt.Sprintf("KNOWN-FINDING: property=%s %s [reproduced on the real code by scenario %s: %s]", prop, kf.What, kf.Scenario, scenarioWhy(out)))
+			knownSeen[kf.ID] = true
+		case kf.State == "fixed" && !pass:
+			os.MkdirAll(replayDir, 0o755)
+			path := filepath.Join(replayDir, kf.Scenario+".replay.json")
+			b, _ := json.MarshalIndent(map[string]interface{}{"property": prop, "obligation": "scenario " + kf.Scenario + " (" + kf.What + ")",
+				"reproduced_on_real_code": true, "cmd": scenarioCmd(kf.Scenario), "output": out}, "", " ")
+			os.WriteFile(path, b, 0o644)
+			rep.violations = append(rep.violations, fmt.Sprintf("VIOLATION property=%s replay=%s", prop, path))
+			fmt.Printf("scenario %s fails on the real code: %s\n", kf.Scenario, scenarioWhy(out))
+		}
+	}
 
 	// samples: a few obligations written out
 	var samples []interface{}
 	for i, o := range all {
-		if i%(len(all)/3+1) == 0 && len(samples) < 4 {
+		if i%(len(all)/3+1) == 0 && len(samples) < 4 && o.vc != nil {
 			q := o.Query(false)
 			goal := o.Goal.S
 			if len(goal) > 400 {
@@ -370,6 +433,7 @@ func runCheck(prop, tier string, seed int) int {
 		"solver_ms_total":          solverMs,
 		"samples":                  samples,
 		"known_findings_seen":      rep.known,
+		"scenario_replays":         scenarioRuns,
 		"undecided":                rep.undecided,
 		"vacuity_checks":           len(vacuity),
 		"per_obligation_timeout_s": timeout,
@@ -438,7 +502,77 @@ func metaAssumptions(prop string) []string {
 	return out
 }
 
-func propExtra(prop, tier string, seed int, rep *checkReport) map[string]interface{} { return nil }
+// propExtra runs the labelled bounded companion of a property, if it has one.
+func propExtra(prop, tier string, seed int, rep *checkReport) map[string]interface{} {
+	if prop == "C20" {
+		return boundedC20(tier, seed, rep)
+	}
+	return nil
+}
+
+// boundedC20: exhaustive small-scope check of the parts of diff.go outside the verified subset
+// (findLongestMatch, matchingBlocks, makeUnifiedDiff, Diff, DiffMatch) on a copy of the real file.
+func boundedC20(tier string, seed int, rep *checkReport) map[string]interface{} {
+	dir, err := os.MkdirTemp("", "c20bounded.")
+	if err != nil {
+		rep.undecided = append(rep.undecided, "bounded C20: "+err.Error())
+		return nil
+	}
+	defer os.RemoveAll(dir)
+	src, err := os.ReadFile(filepath.Join(repoDir(), "internal", "ztest", "diff.go"))
+	if err != nil {
+		rep.undecided = append(rep.undecided, "bounded C20: "+err.Error())
+		return nil
+	}
+	h, err := os.ReadFile(filepath.Join(verifRoot(), "bounded", "c20", "harness_test.go.txt"))
+	if err != nil {
+		rep.undecided = append(rep.undecided, "bounded C20: "+err.Error())
+		return nil
+	}
+	os.WriteFile(filepath.Join(dir, "diff.go"), src, 0o644)
+	os.WriteFile(filepath.Join(dir, "harness_test.go"), h, 0o644)
+	os.WriteFile(filepath.Join(dir, "go.mod"), []byte("module ztestcopy\n\ngo 1.17\n"), 0o644)
+	maxLen, nRandom := "4", "300"
+	if tier == "thorough" {
+		maxLen, nRandom = "5", "3000"
+	}
+	cmd := exec.Command("go", "test", "-count=1", "-v", "-run", "TestBounded", "-timeout", "900s", ".")
+	cmd.Dir = dir
+	cmd.Env = append(os.Environ(), "GOFLAGS=-mod=mod", "GOPROXY=off", "GOSUMDB=off", "GOTOOLCHAIN=local", "C20_MAXLEN="+maxLen, "C20_RANDOM="+nRandom, fmt.Sprintf("VERIF_SEED=%d", seed))
+	out, _ := cmd.CombinedOutput()
+	var sum map[string]interface{}
+	for _, ln := range strings.Split(string(out), "\n") {
+		if strings.HasPrefix(ln, "C20BOUNDED ") {
+			json.Unmarshal([]byte(ln[len("C20BOUNDED "):]), &sum)
+		}
+	}
+	if sum == nil {
+		rep.undecided = append(rep.undecided, "bounded C20 harness did not run: "+firstLines(string(out), 6))
+		return nil
+	}
+	res := map[string]interface{}{"bounded": map[string]interface{}{
+		"label":   "BOUNDED (not counted as proved): exhaustive over all pairs of line sequences over a 3-letter alphabet up to the stated length, plus seeded random long pairs and a DiffMatch table",
+		"covers":  "findLongestMatch/matchingBlocks (the contract GetOpCodes assumes), GetGroupedOpCodes, makeUnifiedDiff, Diff end to end (empty iff equal after trimming; hunks apply; headers agree with bodies; at most 3 context lines), DiffMatch placeholders",
+		"summary": sum,
+	}}
+	if fs, ok := sum["failures"].([]interface{}); ok && len(fs) > 0 {
+		evDir := filepath.Join(verifRoot(), "evidence")
+		if d := os.Getenv("VERIF_EVIDENCE_DIR"); d != "" {
+			evDir = d
+		}
+		rdir := filepath.Join(evDir, "replay", "C20")
+		os.MkdirAll(rdir, 0o755)
+		for i, f := range fs {
+			path := filepath.Join(rdir, fmt.Sprintf("bounded_%d.replay.json", i))
+			b, _ := json.MarshalIndent(map[string]interface{}{"property": "C20", "obligation": "bounded/C20 harness", "failing_input": f,
+				"reproduced_on_real_code": true, "how": "go test -run TestBounded on a copy of /repo/internal/ztest/diff.go with bounded/c20/harness_test.go.txt"}, "", " ")
+			os.WriteFile(path, b, 0o644)
+			rep.violations = append(rep.violations, fmt.Sprintf("VIOLATION property=C20 replay=%s", path))
+			fmt.Printf("bounded C20 failure: %v\n", f)
+		}
+	}
+	return res
+}
 
 var nonFile = regexp.MustCompile(`[^A-Za-z0-9_.-]+`)
 
@@ -452,7 +586,9 @@ func writeReplay(dir, prop string, o *Obligation, goos string, timeout int) (str
 	}
 	path := filepath.Join(dir, base+".replay.json")
 	qpath := filepath.Join(dir, base+".smt2")
-	os.WriteFile(qpath, []byte(o.Query(true)), 0o644)
+	if o.vc != nil {
+		os.WriteFile(qpath, []byte(o.Query(true)), 0o644)
+	}
 	rp := map[string]interface{}{
 		"property": prop, "obligation": o.Name, "kind": o.Kind, "label": o.Label, "function": o.Func, "mode": o.Mode, "goos": goos,
 		"where": fmt.Sprintf("%s:%d", o.Pos.Filename, o.Pos.Line), "result": o.Result, "solver": o.Solver, "solver_outputs": o.Outputs,
@@ -505,4 +641,51 @@ func cmdReplay(args []string) {
 func runSolverText(q string, timeout int) string {
 	so := runSolver(bgCtx(), solvers[0], q, timeout, 0)
 	return so.output
+}
+
+
+var scenarioCache sync.Map
+
+func scenarioCmd(name string) string {
+	return fmt.Sprintf("cd %s && go test -overlay <{\"Replace\":{\"%s/verif_scenarios_test.go\":\"%s/replay/scenarios/verif_scenarios_test.go\"}}> -vet=off -count=1 -timeout 120s -run '^%s$' .", repoDir(), repoDir(), verifRoot(), name)
+}
+
+// runScenario runs one scenario test of replay/scenarios against the real code (injected with -overlay; /repo is not written).
+func runScenario(name string) (bool, string) {
+	if v, ok := scenarioCache.Load(name); ok {
+		r := v.([2]interface{})
+		return r[0].(bool), r[1].(string)
+	}
+	dir, err := os.MkdirTemp("", "scenario.")
+	if err != nil {
+		return true, err.Error()
+	}
+	defer os.RemoveAll(dir)
+	ov := filepath.Join(dir, "ov.json")
+	b, _ := json.Marshal(map[string]interface{}{"Replace": map[string]string{
+		filepath.Join(repoDir(), "verif_scenarios_test.go"): filepath.Join(verifRoot(), "replay", "scenarios", "verif_scenarios_test.go")}})
+	os.WriteFile(ov, b, 0o644)
+	cmd := exec.Command("go", "test", "-overlay", ov, "-vet=off", "-count=1", "-timeout", "120s", "-run", "^"+name+"$", ".")
+	cmd.Dir = repoDir()
+	cmd.Env = append(os.Environ(), "GOFLAGS=-mod=mod", "GOPROXY=off", "GOSUMDB=off", "GOTOOLCHAIN=local")
+	out, err := cmd.CombinedOutput()
+	pass := err == nil
+	if pass && !strings.Contains(string(out), "ok") {
+		pass = false
+	}
+	scenarioCache.Store(name, [2]interface{}{pass, string(out)})
+	return pass, string(out)
+}
+
+func scenarioWhy(out string) string {
+	for _, ln := range strings.Split(out, "\n") {
+		if strings.Contains(ln, "_test.go:") {
+			w := strings.TrimSpace(ln)
+			if len(w) > 300 {
+				w = w[:300] + "…"
+			}
+			return w
+		}
+	}
+	return firstLines(out, 2)
 }
